@@ -38,7 +38,7 @@ REAL_STUB = {
 }
 ASSUMPTIONS = [
     "workers honour shouldStop between tests, as the docstrings require of make_tests",
-    "route codes are non-None strings",
+    "at most one worker has the route code None (events are attributed to workers by route code)",
     "'told to stop' is read at the instant run() unwinds and again once every thread has finished (a delivered stop must still be readable)",
 ]
 
@@ -109,6 +109,29 @@ class Worker:
             raise InjectedError(f"runner {self.idx} crashed at the end")
 
 
+class EqualWorker(Worker):
+    """Sub-suites that compare (and hash) equal to one another, as two unittest.TestCase objects for
+    the same method do: they are still distinct sub-suites."""
+
+    def __eq__(self, other):
+        return isinstance(other, EqualWorker)
+
+    def __hash__(self):
+        return 7
+
+
+class UnhashableWorker(Worker):
+    """A sub-suite that defines __eq__ and therefore has no hash, as a plain unittest.TestSuite."""
+
+    def __eq__(self, other):
+        return self is other
+
+    __hash__ = None
+
+
+WORKER_CLASSES = {None: Worker, "equal": EqualWorker, "unhashable": UnhashableWorker}
+
+
 def gen(tape, big=False):
     stream_suite = tape.chance("config", 1, 2, "stream-suite")
     n = 1 + tape.draw("program", 6 if big else 4, "nworkers")
@@ -142,7 +165,11 @@ def gen(tape, big=False):
         crash = None
         if tape.chance("faults", 1, 5, "runner-crashes"):
             crash = tape.draw("faults", nitems + 1, "crash-after")
-        workers.append({"kind": kind, "items": items, "crash_after": crash, "route": f"rc{w}"})
+        ident = tape.weighted("program", [(8, None), (2, "equal"), (1, "unhashable")], "sub-suite-identity")
+        route = f"rc{w}"
+        if stream_suite and not any(x["route"] is None for x in workers) and tape.chance("program", 1, 6, "route-code-none"):
+            route = None      # "route_code is either None or a unicode string" (make_tests' contract)
+        workers.append({"kind": kind, "items": items, "crash_after": crash, "route": route, "identity": ident})
     faults = {"result": {}, "make_tests_after": None, "wrap_raises_at": None, "interrupt": None}
     f = tape.draw("faults", 10, "abort-fault")
     if f == 1:
@@ -212,7 +239,7 @@ def run_one(tape, opts):
     if faults["interrupt"]:
         sched.interrupts[(faults["interrupt"][0], faults["interrupt"][1])] = KeyboardInterrupt
     sems, queues = [], []
-    workers = [Worker(i, s, sched) for i, s in enumerate(wspecs)]
+    workers = [WORKER_CLASSES[s.get("identity")](i, s, sched) for i, s in enumerate(wspecs)]
     workers2 = [Worker(i, s, sched) for i, s in enumerate(wspecs2)] if wspecs2 is not None else None
     for w in workers:
         if w.spec["kind"] == "raw":
@@ -467,7 +494,7 @@ def _oracle(out, stream_suite, workers, yielded, faults, plan, sched, state, exc
     # -- each sub-suite run exactly once in its own thread
     threads_used = []
     for w in workers:
-        if w in yielded and abort_expected is None and len(w.run_threads) != 1:
+        if any(w is y for y in yielded) and abort_expected is None and len(w.run_threads) != 1:
             out.violate("run-count", f"{tag}:{len(w.run_threads)}", f"worker {w.idx} run() called {len(w.run_threads)} times: {w.run_threads}")
         if len(w.run_threads) > 1:
             out.violate("run-count", f"{tag}:{len(w.run_threads)}", f"worker {w.idx} run() called {len(w.run_threads)} times")
@@ -495,6 +522,13 @@ def _oracle(out, stream_suite, workers, yielded, faults, plan, sched, state, exc
         _plain_delivery(out, workers, events)
 
 
+def _of_route(route_code, rc):
+    """Does an event that arrived with route_code come from the worker whose route code is rc?"""
+    if rc is None:
+        return route_code is None or not route_code.startswith("rc")     # (own codes of raw events are 'sub')
+    return route_code is not None and (route_code == rc or route_code.startswith(rc + "/"))
+
+
 def _norm_status(data):
     return {k: v for k, v in data.items()}
 
@@ -515,7 +549,7 @@ def _stream_delivery(out, workers, events, queues, sched):
                 puts.setdefault(th, []).append(item)
     for w in workers:
         rc = w.spec["route"]
-        got = [e.data for e in sink if e.data["route_code"] is not None and (e.data["route_code"] == rc or e.data["route_code"].startswith(rc + "/"))]
+        got = [e.data for e in sink if _of_route(e.data["route_code"], rc)]
         th = w.run_threads[0] if w.run_threads else None
         put = puts.get(th, [])
         if len(got) != len(put):
@@ -543,7 +577,7 @@ def _stream_delivery(out, workers, events, queues, sched):
                 out.violate(kind, "stream:worker-to-result", f"worker {w.idx} emitted {len(want)} events, result received {len(got)}")
             else:
                 for a, b in zip(want, got):
-                    exp_route = rc if a.get("route_code") is None else rc + "/" + a["route_code"]
+                    exp_route = rc if a.get("route_code") is None else (a["route_code"] if rc is None else rc + "/" + a["route_code"])
                     if b["route_code"] != exp_route:
                         out.violate("route-or-timestamp", "route-code", f"emitted {a} received route {b['route_code']!r} expected {exp_route!r}")
                     if a.get("timestamp") is not None and b["timestamp"] != a["timestamp"]:
@@ -559,8 +593,7 @@ def _stream_delivery(out, workers, events, queues, sched):
     # nothing from nowhere
     known = tuple(w.spec["route"] for w in workers)
     for e in sink:
-        r = e.data["route_code"]
-        if r is None or not any(r == k or r.startswith(k + "/") for k in known):
+        if not any(_of_route(e.data["route_code"], k) for k in known):
             out.violate("route-or-timestamp", "unknown-route", f"{e.data}")
 
 
@@ -630,7 +663,7 @@ def _partial_delivery(out, stream_suite, workers, events):
     if stream_suite:
         for w in workers:
             rc = w.spec["route"]
-            finals = [d.data["test_id"] for d in events if d.method == "status" and d.data["route_code"] == rc
+            finals = [d.data["test_id"] for d in events if d.method == "status" and _of_route(d.data["route_code"], rc)
                       and d.data["test_status"] not in (None, "inprogress", "exists") and w.spec["kind"] != "raw"]
             if len(set(finals)) != len(finals):
                 out.violate("event-duplicated", "stream:after-abort", f"worker {w.idx}: {finals}")
